@@ -355,6 +355,30 @@ def run_table_own_columns(chk, spec):
 		if vec.name != "mine":
 			chk.fail("the caller's vector is not the table's column", f"alias/callers-vector-renamed/{form}", f"{spec!r}: the caller's vector is now named {vec.name!r}")
 
+def run_clone_writes(chk, spec):
+	"""a copy-module clone of a live vector is an ordinary vector: it takes any number of writes while the original lives, the original takes writes too,
+	and neither sees the other's"""
+	import copy
+	n = spec["n"]
+	v = Vector(list(range(10, 10 + n)), name="v")
+	c = call(copy.copy if spec["how"] == "copy" else copy.deepcopy, v)
+	chk.judged("sharing", ("clone-writes", spec["how"], n, spec["writes"]))
+	if not c.ok or not isinstance(c.value, Vector):
+		chk.skip("clone-unavailable")
+		return
+	clone = c.value
+	orig = list(v._underlying)
+	for k in range(spec["writes"]):
+		target = clone if spec["pattern"][k % len(spec["pattern"])] == "c" else v
+		val = 2.5 if spec.get("promote") and k == 1 else 100 + k
+		w = call(lambda: target.__setitem__(k % n, val))
+		if not w.ok and isinstance(w.exc, AliasError):
+			chk.fail("a write is refused with AliasError only while another live vector really shares that storage", f"alias/spurious-refusal/copy-module-clone/{spec['how']}/write-{k + 1}",
+				f"{spec!r}: write number {k + 1} (to the {'clone' if target is clone else 'original'}) raised AliasError; same storage object: {clone.__dict__.get('_underlying') is v.__dict__.get('_underlying')}")
+			return
+	if spec["pattern"] == "c" and list(v._underlying) != orig:
+		chk.fail("two live vectors never observe each other's writes", f"alias/leaked-write/copy-module-clone/{spec['how']}", f"{spec!r}: the original changed: {orig!r} -> {list(v._underlying)!r}")
+
 
 def run_promote_with_holder(chk, spec):
 	"""something else (a copy-module clone, a row, a running iterator) keeps a vector's OLD storage alive while an in-place write promotes the vector; once it is
@@ -393,7 +417,7 @@ def run_promote_with_holder(chk, spec):
 
 DERIVED_OPS = ["empty-left-lshift-vector", "empty-left-lshift-tuple", "typed-empty-lshift-vector", "empty-mask-lshift-vector", "lshift-empty-vector", "copy", "slice-full", "slice-0-n", "slice-0-big", "slice-neg", "slice-step1", "mask-all", "mask-all-vector", "T", "lshift-empty", "rlshift-empty", "lshift-empty-tuple",
 	"sort", "fillna", "dropna", "pos", "cast-same", "to_object", "index-all", "table-column", "table-column-slice", "unique", "copy-of-copy", "rshift-column", "lshift-none-then-slice"]
-RUNNERS = {"twins": run_twins, "table_own_columns": run_table_own_columns, "promote_with_holder": run_promote_with_holder, "table_sharing": run_table_sharing, "history": run_history, "burst": run_burst, "sharing": run_sharing, "derived": run_derived}
+RUNNERS = {"clone_writes": run_clone_writes, "twins": run_twins, "table_own_columns": run_table_own_columns, "promote_with_holder": run_promote_with_holder, "table_sharing": run_table_sharing, "history": run_history, "burst": run_burst, "sharing": run_sharing, "derived": run_derived}
 
 
 def setup(chk):
@@ -415,6 +439,12 @@ def run(chk):
 		for kind in ("int", "str", "float", "object", "object-nullable"):
 			for n in (1, 2, 5):
 				chk.case("derived", {"op": op, "kind": kind, "n": n, "seed": rng.randrange(10**9)}, "derived")
+	for how in ("copy", "deepcopy"):
+		for n in (1, 2, 4):
+			for writes in (1, 2, 3, 5):
+				for pattern in ("c", "cv", "vc", "ccv"):
+					for promote in (False, True):
+						chk.case("clone_writes", {"how": how, "n": n, "writes": writes, "pattern": pattern, "promote": promote}, "clone-writes")
 	for op in TWIN_OPS:
 		for kind in ("int", "str", "float"):
 			for n in (1, 2, 5):
